@@ -130,7 +130,11 @@ Lemma cons_ok_done acc s s' d r :
 Proof. intros [A _]. apply cons_ok_done0. exact A. Qed.
 
 Lemma cons_ok_block k s : cons_ok (acc_of k) s (block k s).
-Proof. intros pre E. cbn. exact E. Qed.
+Proof.
+  unfold block. destruct (wait_exc s).
+  - eapply cons_ok_done; [apply ext_refl|cbn [payload]; rewrite app_nil_r; reflexivity].
+  - intros pre E. cbn. exact E.
+Qed.
 
 Lemma finish_payload e ok d : payload ok = d -> payload (finish e ok d) = d.
 Proof. intros H. destruct e; cbn; auto. Qed.
@@ -219,7 +223,7 @@ Proof.
     cbn [app]. apply finish_payload. reflexivity.
   - destruct (buf s0) as [|f r].
     + destruct (eof s0); [eapply cons_ok_done; [exact H0|reflexivity]|].
-      intros pre E1. cbn. destruct H0 as [A _]. rewrite A, app_nil_r. exact E1.
+      eapply cons_ok_step; [exact H0|]. cbn [app]. apply (cons_ok_block KReadChunk).
     + pose proof (ext_rnc (-1) f r s0) as H. destruct (rnc (-1) f r s0) as [s1 d]. cbn [fst snd] in H.
       eapply cons_ok_done; [eapply ext_trans; [exact H0|exact H]|reflexivity].
 Qed.
